@@ -183,19 +183,31 @@ func ruleCommitResultPropagated(c *core.Ctx) {
 		if sd == d || sd.Decl.Body == nil || sd.Decl.Type.Params == nil {
 			return
 		}
-		takesErr := false
+		var errParams []types.Object
 		for _, fl := range sd.Decl.Type.Params.List {
 			if t := sd.Pkg.TypesInfo.TypeOf(fl.Type); t != nil && t.String() == "error" {
-				takesErr = true
+				for _, nm := range fl.Names {
+					errParams = append(errParams, sd.Pkg.TypesInfo.ObjectOf(nm))
+				}
 			}
 		}
-		if !takesErr {
+		if len(errParams) == 0 {
 			return
 		}
 		filters += len(callsTo(sd.Pkg.TypesInfo, sd.Decl.Body, isErrFilter))
 		ast.Inspect(sd.Decl.Body, func(x ast.Node) bool {
 			if r, ok := x.(*ast.ReturnStmt); ok && len(r.Results) == 1 && astx.IsNilExpr(sd.Pkg.TypesInfo, r.Results[0]) {
-				filters++
+				// `return nil` where the error handed in is known to be nil changes nothing
+				facts := astx.FactsAt(sd.Pkg.TypesInfo, sd.Decl.Body, r.Pos())
+				harmless := false
+				for _, ep := range errParams {
+					if astx.ErrNonNilFact(sd.Pkg.TypesInfo, facts, ep) == -1 {
+						harmless = true
+					}
+				}
+				if !harmless {
+					filters++
+				}
 			}
 			return true
 		})
